@@ -2145,12 +2145,18 @@ static void build_expr(WorkList *list, ASTNode *expr, Environment *env) {
                     emit_literal(list, "gc_wrap_external(");
                 }
 
+                /* nl_abs/nl_min/nl_max are macros: the comma of a struct literal inside an argument would
+                 * split the argument, so each argument is parenthesised */
+                bool callee_is_macro = strcmp(mapped_name, "nl_abs") == 0 || strcmp(mapped_name, "nl_min") == 0 ||
+                                       strcmp(mapped_name, "nl_max") == 0;
+
                 emit_literal(list, mapped_name);
                 emit_literal(list, "(");
 
                 /* Emit arguments - unwrap if opaque type */
                 for (int i = 0; i < expr->as.call.arg_count; i++) {
                     if (i > 0) emit_literal(list, ", ");
+                    if (callee_is_macro) emit_literal(list, "(");
 
                     /* ARC: Check if parameter is opaque type that needs unwrapping */
                     bool needs_unwrap = false;
@@ -2174,6 +2180,7 @@ static void build_expr(WorkList *list, ASTNode *expr, Environment *env) {
                     } else {
                         build_expr(list, expr->as.call.args[i], env);
                     }
+                    if (callee_is_macro) emit_literal(list, ")");
                 }
 
                 emit_literal(list, ")");
